@@ -183,6 +183,10 @@ def run(repo, rep, tier):
     from . import c16 as _c16
     L.borrow(repo, rep, "R11.5", "C16", _c16._cook_check,
              ("mtime-compare", "no-recompile", "check-order"), minimum=2)
+    # the search for an expression's closing brace gives up only when no
+    # shorter candidate is left (C06 owns the loop)
+    from . import c06 as _c06b
+    L.borrow(repo, rep, "R11.5", "C06", _c06b._loop, ("research-or-raise",))
     L.state_rule(repo, rep)
 
 
